@@ -88,3 +88,73 @@ __CPROVER_ensures(named_args != NULL ==> (g_k == named_args->tracked.key && g_v 
     dropped=['text of the fixed members (fmt format of seven attributes)', 'strings as ids', 'class template parameter'],
     trusted=['pair list abstracted to {tracked, representative}; the tracked pair is taken as the j-th = last one visited, j arbitrary because the length is arbitrary'], min_obligations=20)
 UNITS = [write_log, generate]
+
+# ------------------------------------------------------------------------------------------ BackendWorker::_format_and_split_arguments
+BH = 'quill/backend/BackendWorker.h'
+SA_PRELUDE = r'''
+#define NPOS SIZE_MAX
+#define DELIM_LEN 3u
+typedef struct NVec { size_t n; } NVec;                       /* named_args: number of pairs (one per argument) */
+typedef struct OVec { size_t n; size_t g_k; bool g_k_has_spec; } OVec;   /* orig_arg_names: the names parsed from the template; one arbitrary tracked index */
+typedef struct Opts { bool check_printable_char; } Opts; typedef struct Store { bool g_has_string; } Store;
+size_t g_len;                 /* length of the formatted values string */
+size_t g_expect_start, g_next_field, g_assigned, g_placeholders, g_delims, g_vformats, g_sanitized; bool g_tracked_spec_used, g_tracked_seen;
+static inline size_t NVec_size(NVec* v) { return v->n; }
+static inline size_t OVec_size(OVec const* v) { return v->n; }
+static inline bool ORIG_spec_empty(OVec const* v, size_t i) { return i == v->g_k ? !v->g_k_has_spec : nondet_bool_(); }
+bool nondet_bool_(void);
+void FMT_append_spec(OVec const* o, size_t i) __CPROVER_assigns(g_placeholders, g_tracked_spec_used, g_tracked_seen) __CPROVER_ensures(g_placeholders == OLD(g_placeholders) + 1 && (i == o->g_k ? (g_tracked_spec_used && g_tracked_seen) : (g_tracked_spec_used == OLD(g_tracked_spec_used) && g_tracked_seen == OLD(g_tracked_seen))));
+void FMT_append_plain(size_t i, OVec const* o) __CPROVER_assigns(g_placeholders, g_tracked_spec_used, g_tracked_seen) __CPROVER_ensures(g_placeholders == OLD(g_placeholders) + 1 && (i == o->g_k ? (!g_tracked_spec_used && g_tracked_seen) : (g_tracked_spec_used == OLD(g_tracked_spec_used) && g_tracked_seen == OLD(g_tracked_seen))));
+void FMT_append_delim(void) __CPROVER_assigns(g_delims) __CPROVER_ensures(g_delims == OLD(g_delims) + 1);
+void VFORMAT_VALUES(void) __CPROVER_assigns(g_vformats, g_len, g_exc) __CPROVER_ensures(g_vformats == OLD(g_vformats) + 1 && g_len <= (((size_t)1) << 40) && (g_exc == 0 || g_exc == EXC_STD || g_exc == EXC_OTHER));
+/* formatted_values_str.find(delimiter, start): first delimiter at or after start */
+size_t FIND_DELIM(size_t start) __CPROVER_assigns() __CPROVER_ensures(RET == NPOS || (RET >= start && RET + DELIM_LEN <= g_len));
+void ASSIGN_VALUE(NVec* named, size_t idx, size_t start, size_t len)
+__CPROVER_requires(idx < named->n) /*@ C19 "a value is never written past the end of the pair list" */
+__CPROVER_requires(idx == g_next_field && start == g_expect_start) /*@ C19 "the k-th formatted value goes to the k-th pair: fields are taken in order, contiguously" */
+__CPROVER_assigns(g_next_field, g_expect_start, g_assigned) __CPROVER_ensures(g_next_field == idx + 1 && g_assigned == OLD(g_assigned) + 1 && g_expect_start == (len == NPOS ? NPOS : start + len + DELIM_LEN));
+static inline bool STORE_has_string(Store const* s) { return s->g_has_string; }
+void SANITIZE_ALL(NVec* named) __CPROVER_assigns(g_sanitized) __CPROVER_ensures(g_sanitized == OLD(g_sanitized) + 1);
+'''
+split_args = dict(
+    name='BW.split_args', primary='C19', props={'C19'}, kind='S',
+    desc='BackendWorker::_format_and_split_arguments: one placeholder per pair (with the pair\'s own spec when it has one), n-1 delimiters, and the k-th split field is assigned to the k-th pair, never past the end',
+    structs=[], prelude=SA_PRELUDE, enforce='BW_split_args',
+    replace=['FMT_append_spec', 'FMT_append_plain', 'FMT_append_delim', 'VFORMAT_VALUES', 'FIND_DELIM', 'ASSIGN_VALUE', 'SANITIZE_ALL'], loopcontracts=True,
+    funcs=[dict(src=dict(header=BH, cls='BackendWorker', name='_format_and_split_arguments'), src_params=['orig_arg_names', 'named_args', 'format_args_store', 'options'],
+                cfun='BW_split_args', sig='void BW_split_args(OVec const* orig_arg_names_p, NVec* named_args_p, Store const* format_args_store_p, Opts const* options_p)', member_fields=[],
+                exceptions=True, may_throw=['VFORMAT_VALUES'],
+                pre_rules=[(r'std::string\s+format_string\s*;', '', 1), (r'static\s+constexpr\s+std::string_view\s+delimiter\{[^;]*\}\s*;', '', 1), (r'std::string\s+formatted_values_str\s*;', '', 1),
+                           (r'named_args\.size\(\)', 'NVec_size(named_args_p)'), (r'orig_arg_names\.size\(\)', 'OVec_size(orig_arg_names_p)', 1),
+                           (r'!orig_arg_names\[i\]\.second\.empty\(\)', '!ORIG_spec_empty(orig_arg_names_p, i)', 1),
+                           (r'format_string\s*\+=\s*fmtquill::format\("\{\{\{\}\}\}",\s*orig_arg_names\[i\]\.second\)\s*;', 'FMT_append_spec(orig_arg_names_p, i);', 1),
+                           (r'format_string\s*\+=\s*"\{\}"\s*;', 'FMT_append_plain(i, orig_arg_names_p);', 1), (r'format_string\s*\+=\s*delimiter\s*;', 'FMT_append_delim();', 1),
+                           (r'fmtquill::vformat_to\s*\(std::back_inserter\(formatted_values_str\).*?\}\s*\)\s*;', 'VFORMAT_VALUES();', 1),
+                           (r'formatted_values_str\.find\(delimiter,\s*start\)', 'FIND_DELIM(start)', 1), (r'std::string::npos', 'NPOS', 1),
+                           (r'named_args\[idx\+\+\]\.second\s*=\s*formatted_values_str\.substr\(start,\s*end - start\)\s*;', 'ASSIGN_VALUE(named_args_p, idx, start, end - start); idx++;', 1),
+                           (r'named_args\[idx\]\.second\s*=\s*formatted_values_str\.substr\(start\)\s*;', 'ASSIGN_VALUE(named_args_p, idx, start, NPOS);', 1),
+                           (r'delimiter\.length\(\)', 'DELIM_LEN', 1),
+                           (r'options\.check_printable_char\s*&&\s*format_args_store\.has_string_related_type\(\)', 'options_p->check_printable_char && STORE_has_string(format_args_store_p)', 1),
+                           (r'for\s*\(auto&\s*named_arg\s*:\s*named_args\)\s*\{\s*sanitize_non_printable_chars\(named_arg\.second,\s*options\)\s*;\s*\}', 'SANITIZE_ALL(named_args_p);', 1)],
+                loops={r'for\s*\(size_t i = 0': r'''
+__CPROVER_assigns(i, g_placeholders, g_delims, g_tracked_spec_used, g_tracked_seen)
+__CPROVER_loop_invariant(i <= named_args_p->n && g_placeholders == i && g_delims == (i == named_args_p->n && i > 0 ? i - 1 : i))
+__CPROVER_loop_invariant(g_tracked_seen ? (i > orig_arg_names_p->g_k) : (i <= orig_arg_names_p->g_k))
+__CPROVER_loop_invariant((g_tracked_seen && orig_arg_names_p->g_k < orig_arg_names_p->n) ==> (g_tracked_spec_used ? orig_arg_names_p->g_k_has_spec : !orig_arg_names_p->g_k_has_spec))
+__CPROVER_decreases(named_args_p->n - i)
+''', r'while\s*\(\s*\(end\s*=': r'''
+__CPROVER_assigns(end, start, idx, g_next_field, g_expect_start, g_assigned)
+__CPROVER_loop_invariant(idx <= named_args_p->n && g_next_field == idx && g_assigned == idx && (idx < named_args_p->n ==> (start == g_expect_start && start <= g_len)))
+'''},
+                contract=r'''
+__CPROVER_requires(__CPROVER_is_fresh(orig_arg_names_p, sizeof(OVec)) && __CPROVER_is_fresh(named_args_p, sizeof(NVec)) && __CPROVER_is_fresh(format_args_store_p, sizeof(Store)) && __CPROVER_is_fresh(options_p, sizeof(Opts)))
+__CPROVER_requires(g_exc == 0 && g_placeholders == 0 && g_delims == 0 && g_vformats == 0 && g_assigned == 0 && g_next_field == 0 && g_expect_start == 0 && !g_tracked_seen && named_args_p->n <= (((size_t)1) << 30) && orig_arg_names_p->n <= named_args_p->n && orig_arg_names_p->g_k < named_args_p->n)
+__CPROVER_assigns(g_exc, g_len, g_expect_start, g_next_field, g_assigned, g_placeholders, g_delims, g_vformats, g_sanitized, g_tracked_spec_used, g_tracked_seen)
+__CPROVER_ensures(g_exc == 0 ==> (g_placeholders == named_args_p->n && g_delims == (named_args_p->n == 0 ? 0 : named_args_p->n - 1) && g_vformats == 1)) /*@ C19 "one placeholder per argument, separated by n-1 delimiters, formatted in one go" */
+__CPROVER_ensures((g_exc == 0 && orig_arg_names_p->g_k < orig_arg_names_p->n) ==> (g_tracked_spec_used ? orig_arg_names_p->g_k_has_spec : !orig_arg_names_p->g_k_has_spec)) /*@ C19 "each value is formatted according to its own placeholder's spec (and plainly when it has none)" */
+__CPROVER_ensures(g_exc == 0 ==> g_assigned <= named_args_p->n) /*@ C19 "at most one value per pair" */
+''')],
+    harness='  OVec* o; NVec* n; Store* s; Opts* p; BW_split_args(o, n, s, p);',
+    dropped=['all strings (placeholders, delimiter, formatted values): positions via the find stub', 'static function of BackendWorker'],
+    trusted=['std::string::find returns the first match at or after start', 'names list abstracted to one tracked index'], min_obligations=30)
+UNITS.append(split_args)
